@@ -9,7 +9,7 @@
    step f s is its closed form on skeletons; guard f s excludes the (request, state) pairs on
    which the CODE fails (one conjunct per known finding, see Refuted.v). *)
 From Coq Require Import List Bool Arith.
-From PV Require Import Base.PyData C08.Model C08.ProofsGraph C08.ProofsStep C08.ProofsStep2 C08.ProofsDomain C08.Proofs C08.ProofsRefine.
+From PV Require Import Base.PyData C08.Model C08.ProofsGraph C08.ProofsStep C08.ProofsStep2 C08.ProofsDomain C08.Proofs C08.ProofsRefine C08.ProofsDecimal C08.ProofsRefine2 C08.ProofsRefine3 C08.ProofsRefine4 C08.ProofsRefine5 C08.ProofsRefine6 C08.ProofsRefineAll.
 
 (* The detectors are exact on every skeleton graph: for ANY number of transit and peripheral
    compartments, any absorption/elimination/lag combination (no validity hypothesis needed), each
@@ -90,27 +90,60 @@ Proof.
   intros f s Ht Hp Hf He Hv Hg. apply refines_sound; [apply setter_refines_bounded|..]; assumption.
 Qed.
 
-(* setter_refines, ALL transit and peripheral counts, for nine of the request forms: the graph part
-   of the four elimination setters, add/remove_lag_time, add/remove_bioavailability and
-   add_peripheral_compartment, run on build s, lands on a graph equivalent (up to node order and
-   rate renaming) to build (step f s) — for EVERY skeleton s (no validity, guard or bound needed),
-   by induction-free structural reasoning on the seq-indexed node and edge lists. *)
-Definition refines_proved_for_all_counts (f : req) : bool :=
-  match f with
-  | ElFO | ElZO | ElMM | ElMix | LagOn | LagOff | BioOn | BioOff | PerAdd => true
-  | _ => false
-  end.
-
+(* setter_refines, ALL transit and peripheral counts — no bound, no vm_compute, neither validity nor
+   guard needed: the graph part of the setter, run on build s, does exactly what the closed form
+   says (result equivalent to build (step f s) up to node order and rate renaming, or the same
+   refusal / crash kind), for EVERY skeleton s and
+   - the four elimination setters, add/remove_lag_time, add/remove_bioavailability,
+     add_peripheral_compartment, remove_peripheral_compartment (all states);
+   - set_peripheral_compartments(n) for every n <= current count + 1 (any number of removals, or
+     one addition) — uses `periph_order`: Python's (len(name), name) order on PERIPHERAL<k> is
+     the numeric order, i.e. the decimal rendering of naturals is monotone for (length, lexicographic);
+   - the four absorption setters on the states listed by abs_proved — for every valid state on
+     which the guard holds EXCEPT: set_instantaneous_absorption with a depot behind two or more
+     transits (depot removed and chain reconnected) and set_seq_zo_fo_absorption from instantaneous
+     absorption without transits.  Includes the two-pass cases where the Python runs its detectors
+     on an intermediate system (depot removed; dose moved to CENTRAL) — lemmas FG_central,
+     FG_dosing0 on systems whose dosing compartment was relabelled and moved in the node order.
+   - set_transit_compartments(n, keep_depot) on every valid state when the depot stays
+     (keep_depot=True, or there is no depot), for every n and every current count (transits_proved):
+     count already there (only the lag time goes), the documented refusal, the `while n > 0` loop
+     creating a chain in front of the dosing compartment (dose, bioavailability moved to TRANSIT1),
+     the `while nadd > 0` loop, the `while nremove > 0` loop down to n >= 1 and down to 0 (dose
+     to the compartment behind the chain) — each by induction on the loop count.  Left out:
+     creating a chain while a lag time is set (the recorded anomaly) and keep_depot=False with a depot.
+   Not covered here (setter_refines_partial remains their link): set_transit_compartments with
+   keep_depot=False on a depot, the two absorption cases above, set_peripheral_compartments adding
+   two or more. *)
 Theorem setter_refines :
-  forall (f : req) (s : sk), refines_proved_for_all_counts f = true -> refines f s = true.
-Proof.
-  intros f s H. destruct f; try discriminate H;
-    try (apply refines_elim; reflexivity); try (apply refines_label; reflexivity).
-  apply refines_peradd.
-Qed.
+  forall (f : req) (s : sk), refines_proved f s = true -> refines f s = true.
+Proof. exact setter_refines_lemma. Qed.
 
-(* ... hence for these requests feature_request_sound holds with no `refines` hypothesis and no bound *)
+(* the (len(name), name) order of find_peripheral_compartments is the numbering order, for all k *)
+Theorem peripheral_order_is_numeric :
+  forall i j : nat, i <= j -> name_len_leb (NPeriph i) (NPeriph j) = true.
+Proof. exact periph_order. Qed.
+
+(* ... hence for these (request, state) pairs feature_request_sound holds with no `refines`
+   hypothesis and no bound *)
 Theorem feature_request_sound_all_counts :
-  forall (f : req) (s : sk), refines_proved_for_all_counts f = true ->
+  forall (f : req) (s : sk), refines_proved f s = true ->
     valid s = true -> guard f s = true -> sound_on_graph f s.
-Proof. intros f s H Hv Hg. apply refines_sound; [apply setter_refines; exact H | exact Hv | exact Hg]. Qed.
+Proof. exact sound_all_counts_lemma. Qed.
+
+(* Coverage of setter_refines: on valid states within the guard, every request of all sixteen forms
+   has the all-counts refinement, except the four residual classes named by open_case
+   (set_instantaneous_absorption with a depot behind two or more transits; set_seq_zo_fo_absorption
+   from instantaneous absorption without transits; set_peripheral_compartments adding two or more;
+   set_transit_compartments(keep_depot=False) on a depot). *)
+Theorem setter_refines_coverage :
+  forall (f : req) (s : sk), valid s = true -> guard f s = true -> open_case f s = false ->
+    refines_proved f s = true.
+Proof. exact covered_proved. Qed.
+
+(* feature_request_sound with no `refines` hypothesis, no bound on the transit / peripheral counts
+   and no evaluation: all sixteen request forms, every valid state within the guard, outside open_case *)
+Theorem feature_request_sound_unbounded :
+  forall (f : req) (s : sk), valid s = true -> guard f s = true -> open_case f s = false ->
+    sound_on_graph f s.
+Proof. exact sound_covered_lemma. Qed.
